@@ -54,7 +54,7 @@ def skeleton : List (String × List String) := [
   ("is_array_like", ["if not isinstance(inp, (list, tuple, np.ndarray))", "  raise MagpylibBadUserInput"]),
   ("make_float_array", ["try", "  inp_array = np.array(inp, dtype=float)", "except Exception", "  raise MagpylibBadUserInput", "return inp_array"]),
   ("check_array_shape", ["if inp.ndim in dims", "  if shape_m1 == 'any' or inp.shape[-1] == shape_m1", "    if length is None or len(inp) == length", "      return None", "raise MagpylibBadUserInput"]),
-  ("check_format_input_scalar", ["if allow_None", "  if inp is None", "    return None", "if not isinstance(inp, numbers.Number)", "  raise MagpylibBadUserInput", "inp = float(inp)", "if forbid_negative", "  if inp < 0", "    raise MagpylibBadUserInput", "return inp"]),
+  ("check_format_input_scalar", ["if allow_None", "  if inp is None", "    return None", "if not isinstance(inp, numbers.Number)", "  raise MagpylibBadUserInput", "try", "  inp = float(inp)", "except (TypeError, OverflowError)", "  raise MagpylibBadUserInput", "if forbid_negative", "  if inp < 0", "    raise MagpylibBadUserInput", "return inp"]),
   ("check_format_input_vector", ["if allow_None", "  if inp is None", "    return None", "is_array_like(...)", "inp = make_float_array(...)", "check_array_shape(...)", "if isinstance(reshape, tuple)", "  if inp.size == 0", "    raise MagpylibBadUserInput", "  return np.reshape(inp, reshape)", "if forbid_negative0", "  if np.any(inp <= 0)", "    raise MagpylibBadUserInput", "return inp"]),
   ("check_format_input_vector2", ["is_array_like(...)", "inp = make_float_array(...)", "for (d1, d2) in zip(inp.shape, shape)", "  if d2 is not None", "    if d1 != d2", "      raise ValueError", "return inp"]),
   ("check_format_input_vertices", ["inp = check_format_input_vector(...)", "if inp is not None", "  if inp.shape[0] < 2", "    raise MagpylibBadUserInput", "return inp"]),
